@@ -40,6 +40,9 @@ func (c Case) String() string {
 	if c.Pairs {
 		p = " pairs-at-once"
 	}
+	if c.Wiring != "" {
+		p += " wiring=" + c.Wiring
+	}
 	return fmt.Sprintf("%s table=%v list=%v list2=%v%s", c.Front, c.Table, c.List, c.List2, p)
 }
 
@@ -366,6 +369,15 @@ func TestCheck(t *testing.T) {
 	if r.Replay != nil {
 		var c Case
 		r.DecodeReplay(&c)
+		if strings.HasPrefix(c.Wiring, "config-") {
+			k, d := executeConfigWiring(c)
+			if k == "inconclusive" {
+				r.Inconclusive(c.String() + ": " + d)
+				return
+			}
+			record(c, k, d, false)
+			return
+		}
 		if c.Wiring != "" {
 			k, d := executeWiring(c)
 			record(c, k, d, false)
@@ -403,6 +415,18 @@ func TestCheck(t *testing.T) {
 			k, d := executeWiring(c)
 			if k == "inconclusive" {
 				r.Inconclusive(c.String() + ": " + d)
+				r.Eval(1)
+			} else {
+				record(c, k, d, false)
+			}
+		}
+		idx++
+	}
+	for _, c := range configWiringCases() {
+		if r.Mine(idx) {
+			k, d := executeConfigWiring(c)
+			if k == "inconclusive" {
+				r.Inconclusive(c.String() + " " + c.Wiring + ": " + d)
 				r.Eval(1)
 			} else {
 				record(c, k, d, false)
